@@ -8,7 +8,7 @@ CONSTANTS
   Outs = {"ok", "err", "panic", "pnil", "exit"}
   Fins = {"none", "commit", "rollback"}
   CancelOn = TRUE
-  DbStates = {"ok", "nobegin", "err"}
+  DbStates = {"ok", "nobegin", "err", "zero"}
 INVARIANTS TypeOK FinishedOnce CommitIffAllOk NoLaterStep NoBeginForEmpty RetRight GoneOnlyByExit
 PROPERTIES StepsOnlyInOpenTx ExecInsideTx FinishGuard NothingAfterAnswer
 VIEW View
